@@ -27,7 +27,7 @@ THEOREMS = [
     "BeyondVerif.C17.thrust_window",
     "BeyondVerif.C17.thrust_windows_tile",
     "BeyondVerif.C17.dkep2dv_triangle",
-    "BeyondVerif.C17.dkep2dv_isclose_branch",
+    "BeyondVerif.C17.dkep2dv_zero",
     "BeyondVerif.C17.dkep2dv_first_order_a",
     "BeyondVerif.C17.dkep2dv_dv_a",
     "BeyondVerif.C17.dkep2aol_splits",
@@ -40,12 +40,12 @@ LEVEL_TEXT = ("Lean theorems about code translated from the source on every run:
               "(r^ | v^, w^ x first, w^) for every state with r x v != 0; a QSW/TNW/inertial maneuver vector is projected with exactly its magnitude and "
               "components; the orbit-attached frame puts its orbit at the origin and round-trips; over integer microseconds, for every partition of a span "
               "into positive steps (fixed or adaptive) ImpulsiveMan.check fires in exactly one step, the one containing the date (delay < that step), for each "
-              "of several maneuvers independently; ContinuousMan.check is start <= t < stop; dkep2dv (man.py) yields, outside its isclose shortcut, the "
-              "velocity v_final rotated by dangle, and realises da to first order (HasDerivAt = 1); dkep2aol splits the plane change as requested. "
+              "of several maneuvers independently; ContinuousMan.check is start <= t < stop; dkep2dv (man.py) yields, for every input, the "
+              "velocity v_final rotated by dangle (law of cosines), and realises da to first order (HasDerivAt = 1); dkep2aol splits the plane change as requested. "
               "Projection, attached frame and step loop are hand-modelled and tied by differential correspondence with the real classes and KeplerNum.")
 LEVEL_NOTE = ("proof (partial): 'a continuous burn delivers its full delta-v' is false of the code for burns not aligned with the steps (known finding, kernel-checked "
               "witnesses) and its quadrature is oracle-only; first-order realisation of (di, dOmega) is proved only up to the velocity geometry (triangle + "
-              "dkep2aol split), the Gauss-equation step is oracle-only; dkep2dv in floating point cancels catastrophically for small increments (known finding); "
+              "dkep2aol split), the Gauss-equation step is oracle-only; "
               "R -> double gap covered by tolerance-bounded correspondence; Lean kernel + propext/Classical.choice/Quot.sound; py2lean translator and harness trusted")
 TECHNIQUE = ("Lean 4 proof (ring/linear_combination identities on 3-vectors, HasDerivAt, induction over step lists with omega, kernel decide witnesses) over "
              "formulas regenerated from the Python AST; differential correspondence for the hand-modelled parts")
@@ -54,7 +54,7 @@ TRUSTED = [
     "Tr.expr (dkep2aol, ImpulsiveMan.check, ContinuousMan.check -> Generated/ManWindow.lean); Butcher nodes read from the live KeplerNum.BUTCHER",
     "lean/templates/Vec3.tpl (numpy cross / norm / matrix-vector products on 3-vectors), lean/templates/Man.tpl (to_local dispatch, projection, attached frame), "
     "lean/BeyondVerif/Model/ManWin.lean (step loop of KeplerNum._iter/_make_step): hand-written, tied by the correspondence run",
-    "numpy / libm double arithmetic vs R: tolerance 1e-9 relative (1e-12 for rotation entries); dkep2dv's dv_w compared with a conditioning-aware tolerance",
+    "numpy / libm double arithmetic vs R: tolerance 1e-9 relative (1e-12 for rotation entries; dv_t of dkep2dv up to 64 ulp of the speed)",
     "Date comparisons are exact at millisecond granularity (Date compares float MJD, resolution ~0.6 us: property C03)",
 ]
 ASSUMPTIONS = [
@@ -71,11 +71,8 @@ NOT_COVERED = [
     "states interpolated by Ephem (orb.propagate(date), iter with a step other than the propagator's) within 4 steps of an impulse are Lagrange-interpolated "
     "across the velocity jump (measured: 67 % error of the jump one half step after it, 0.5 m/s of a 1 m/s impulse visible one half step before its date); "
     "the theorems and the oracle speak about the integration grid (real steps) only; interpolation is property C09",
-    "floating-point evaluation of dkep2dv for small increments (known finding C17-dkep2dv-cancellation): the theorems are about the real-number formula",
 ]
 OPEN = [
-    "dkep2dv_triangle carries the hypothesis that the isclose(ratio, 1) shortcut is not taken; inside it (plane change < 0.45 % of the tangential part) "
-    "dkep2dv_isclose_branch shows dv_w = 0, i.e. the requested (di, dOmega) are not realised — false of the code, filed as part of C17-dkep2dv-cancellation",
     "whole_steps_full_dv (a burn lasting n fixed steps from a grid date delivers n*h*accel for Euler/RK4) is checked by the oracle (1e-9) and witnessed for one "
     "instance (whole_step_burn_rk4); not stated as a general theorem",
 ]
@@ -95,8 +92,7 @@ MU = 3.986004418e14
 # ---------------------------------------------------------------- extraction from the source
 
 DKEP_INPUTS = ["μ", "a", "i", "v", "da", "di", "dOmega"]   # `µ` is NFKC-normalised to the Greek letter by Python's parser
-DKEP_OUTPUTS = [("dv_a", "dkepDvA"), ("dangle", "dkepDangle"), ("v_final", "dkepVFinal"), ("dv", "dkepDv"), ("dv_t", "dkepDvT"),
-                ("ratio", "dkepRatio"), ("dv_w", "dkepDvW")]
+DKEP_OUTPUTS = [("dv_a", "dkepDvA"), ("dangle", "dkepDangle"), ("v_final", "dkepVFinal"), ("dv_t", "dkepDvT"), ("dv_w", "dkepDvW")]
 
 
 def _ret_of(tree, qualname):
@@ -319,30 +315,12 @@ def correspondence(ctx):
         def chk(rep, inp=inp, dvv=dvv, v=v):
             if not rep[0].isdigit():
                 out.fail("c17-dkep", "model rejected the request: " + rep, inp); return
-            mdv, mdvt, mratio, mdvw = [b2f(t) for t in rep.split()]
+            mdvt, mdvw = [b2f(t) for t in rep.split()]
             eps = 2.3e-16
             if not core.close(dvv[0], mdvt, rtol=1e-9, atol=64 * eps * v):
                 out.fail("c17-dkep", "dv_t differs between dkep2dv and the translated model", inp, observed=dvv, expected=[mdvt, 0.0, mdvw]); return
-            # conditioning of the law-of-cosines detour: relative error of dv^2 ~ 4 eps v^2 / dv^2
-            if not (math.isfinite(mdv) and mdv > 0):
-                out.tally("dkep: ill-conditioned (model dv is 0 or non-finite) — dv_w not compared"); return
-            delta = 8 * eps * v * v / (mdv * mdv)
-            one_minus = abs(1 - mratio * mratio)
-            near_branch = abs(abs(mratio - 1) - (1e-8 + 1e-5)) < 10 * delta + 1e-12
-            if near_branch:
-                out.tally("dkep: within rounding of the isclose threshold — dv_w not compared"); return
-            if abs(mratio - 1) <= 1e-8 + 1e-5:
-                if dvv[2] != 0 or mdvw != 0:
-                    out.fail("c17-dkep", "isclose branch: dv_w should be 0 on both sides", inp, observed=dvv, expected=[mdvt, 0.0, mdvw])
-                else:
-                    out.tally("dkep: isclose branch agreed")
-                return
-            rtol = 1e-9 + 50 * (delta + delta / max(one_minus, 1e-300))
-            if rtol > 1e-2:
-                out.tally("dkep: ill-conditioned — dv_w not compared"); return
-            out.tally("dkep: dv_w compared")
-            if not core.close(dvv[2], mdvw, rtol=rtol, atol=0.0):
-                out.fail("c17-dkep", "dv_w differs between dkep2dv and the translated model", inp, observed=dvv, expected=[mdvt, 0.0, mdvw], rtol=rtol)
+            if not core.close(dvv[2], mdvw, rtol=1e-9, atol=1e-300):
+                out.fail("c17-dkep", "dv_w differs between dkep2dv and the translated model", inp, observed=dvv, expected=[mdvt, 0.0, mdvw])
         add(" ".join(["c17.dkep"] + ftoks([mu, a, i, v, da, di, dO])), chk)
         real_aol = float(dkep2aol(orbc, di, dO))
         add(" ".join(["c17.aol"] + ftoks([i, di, dO])), lambda rep, inp=inp, r=real_aol: cmp_floats(out, "c17-aol", "dkep2aol differs from the model", inp, [r], rep, 1e-12))
